@@ -265,6 +265,26 @@ func c13Case(c *core.Case) {
 			d := 100 + r.Intn(1900)
 			text = []byte(strings.Repeat("[", d) + strings.Repeat("]", d))
 		}
+		if c.Index%400 == 7 {
+			// wide rather than deep: many thousands of sibling arrays and objects
+			n := 10001 + r.Intn(6000)
+			el := gen.Pick(r, []string{"[]", "{}", "[1]", `{"a":[]}`, `["x",[]]`})
+			if gen.Chance(r, 0.5) {
+				text = []byte("[" + strings.Repeat(el+",", n-1) + el + "]")
+			} else {
+				var sb strings.Builder
+				sb.WriteString("{")
+				for i := 0; i < n; i++ {
+					if i > 0 {
+						sb.WriteString(",")
+					}
+					fmt.Fprintf(&sb, `"k%d":%s`, i, el)
+				}
+				sb.WriteString("}")
+				text = []byte(sb.String())
+			}
+			c.Count("source:wide-document")
+		}
 		c.Count("source:grammar")
 	}
 	if hugeExp.Match(text) {
